@@ -224,3 +224,88 @@ func ruleNilFuncField(c *Ctx, r *R) {
 }
 
 var nilFuncFieldReviewed = map[string]string{}
+
+func init() {
+	register(&Rule{ID: "CLONE-nil", Props: []string{"C17", "C02"}, Min: 5,
+		Doc: "G (contradiction rule): (*cloner).object dereferences its argument (in.objectClass.clone). Most callers test the field they pass for nil first (out.prototype != nil ...); a caller that passes a pointer field which is only conditionally set - the arguments object of a function environment is not created when a parameter is named `arguments` - makes Otto.Copy() dereference nil. Every call passes a value that is tested non-nil on that path, an intrinsic of the `global` table (all assigned: SHAPE-order), a parameter of the clone function (the caller's obligation), or is reviewed",
+		Run: ruleCloneNil})
+}
+
+func ruleCloneNil(c *Ctx, r *R) {
+	var target *ssa.Function
+	for _, fn := range c.AllSrcFuncs("") {
+		if fn.Name() == "object" && fn.Signature.Recv() != nil && isClonerType(fn.Signature.Recv().Type()) {
+			target = fn
+		}
+	}
+	if target == nil {
+		r.undecided("unresolved:cloner.object", "-", "UNRESOLVED: (*cloner).object not found")
+		return
+	}
+	for _, fn := range c.AllSrcFuncs("") {
+		ord := map[string]int{}
+		for _, b := range fn.Blocks {
+			for _, ins := range b.Instrs {
+				call, ok := ins.(*ssa.Call)
+				if !ok || call.Call.StaticCallee() != target || len(call.Call.Args) < 2 {
+					continue
+				}
+				arg := call.Call.Args[1]
+				desc := "?"
+				okArg := false
+				why := ""
+				switch x := arg.(type) {
+				case *ssa.Parameter:
+					okArg, desc, why = true, "parameter "+x.Name(), "the clone function's own parameter: its caller's obligation"
+				default:
+					if a := loadAddr(arg); a != nil {
+						if nt, f := fieldOfAddr(a); nt != nil {
+							desc = nt.Obj().Name() + "." + f.Name()
+							if nt.Obj().Name() == "global" {
+								okArg, why = true, "intrinsic of the global table (every field assigned: SHAPE-order)"
+							}
+						}
+					}
+					if f, ok := arg.(*ssa.Field); ok {
+						if st, ok := f.X.Type().Underlying().(*types.Struct); ok {
+							desc = typeStr(f.X.Type()) + "." + st.Field(f.Field).Name()
+						}
+					}
+					if ex, ok := arg.(*ssa.Extract); ok {
+						desc = "tuple element"
+						if ta, ok := ex.Tuple.(*ssa.TypeAssert); ok {
+							desc = "(" + typeStr(ta.X.Type()) + ").(" + typeStr(ta.AssertedType) + ")"
+						}
+					}
+				}
+				base := fmt.Sprintf("%s:%s", ssaFuncName(fn), desc)
+				ord[base]++
+				key := fmt.Sprintf("%s#%d", base, ord[base])
+				site := c.Pos(instrPos(call))
+				if okArg {
+					r.ok(key, site, why)
+					continue
+				}
+				if nonNilAt(fn, arg, call) {
+					r.ok(key, site, "tested non-nil on this path")
+					continue
+				}
+				if rv, ok := cloneNilFieldReviewed[desc]; ok {
+					r.ok("reviewed:"+key, site, rv)
+					continue
+				}
+				r.bad(key, site, fmt.Sprintf("%s passes %s to (*cloner).object without a nil test, and (*cloner).object dereferences its argument: when that pointer is nil Otto.Copy() panics in the host", ssaFuncName(fn), desc))
+			}
+		}
+	}
+}
+
+// cloneNilFieldReviewed: fields whose writers were read; the key is the struct field passed.
+var cloneNilFieldReviewed = map[string]string{
+	"runtime.globalObject":      "assigned unconditionally by newContext (global.go) before any script can run, and by (*runtime).clone itself; never reassigned",
+	"runtime.eval":              "assigned unconditionally by newContext from the freshly built global object; never reassigned (GUARD-assert covers the assertion there)",
+	"objectStash.object":        "both constructors ((*runtime).newObjectStash, (*objectStash).clone) store the object they were given; with-statements and the global stash pass a ToObject result, which is never nil",
+	"bindFunctionObject.target": "both literals (newBoundFunctionObject, objectClone) set target; bind() throws a TypeError unless `this` is a function object before building one",
+	"object.prototype":          "objectClone: `*out = *in` immediately precedes the test of out.prototype, so the tested pointer is in.prototype",
+	"(interface{}).(*object)":   "a Value whose payload is a typed-nil *object is excluded by TYPED-nil (no nilable *object reaches objectValue)",
+}
